@@ -32,7 +32,7 @@ def main():
     ]
     if c.setup():
         for label, kw in configs(c.tier):
-            c.run(label, 'rsym.hn', 'ReadableNames', kw, required_witnesses=('a struct name is qualified by an ancestor',) if 'two parents' in label or 'deep' in label else (), time_cap=200 if c.tier == 'quick' else 900)
+            c.run(label, 'rsym.hn', 'ReadableNames', kw, required_witnesses=('a struct name is qualified by an ancestor',) if 'two parents' in label or 'deep' in label else (), time_cap=600 if c.tier == 'quick' else 900)
     c.finish(bounds={'templates': [l for l, _ in configs(c.tier)]}, outside=['names outside the alphabets', 'deeper/wider trees'],
              trusted=['rsym + models', 'z3', 'output reader', 'tools/replay'],
              technique='symbolic execution of compute_name_hints/expand_name/inner_to_serde_struct over trees with solver-chosen names; naming clauses decided per path')
